@@ -59,6 +59,12 @@ class PipeWorld(OracleWorld):
             return self.leaf(m, st, self.leaves[p], args[-1], callee)
         if p == ALLOWS:
             return self.allows(m, st, callee, args)
+        if p == P + "nicknames::find_disallowed_space":
+            # a probe of the string that does not transform it: its answer may steer the pipeline
+            s = self._content(m, st, args[0])
+            ans = st.choose(("probe", "find_disallowed_space", s.tag), ["None", "Some"])
+            st.emit(("probe", "find_disallowed_space", s.tag, ans))
+            return ip.none() if ans == "None" else ip.some(Sym(("pos", s.tag), "usize"))
         if p == STABILIZE:
             return self.stabilize(m, st, callee, args)
         if p == LAZY_GET:
@@ -172,7 +178,7 @@ def extract(prog, body_key, args, world=None):
         evs = []
         # merge leaf events and the empty?/str-eq decisions in execution order
         # (decisions are logged at the moment they are taken; leaf events carry their step number)
-        log = [(k, v) for k, v in o.state.log if isinstance(k, tuple) and k[0] in ("empty?", "str-eq", "step")]
+        log = [(k, v) for k, v in o.state.log if isinstance(k, tuple) and k[0] in ("empty?", "str-eq", "step", "probe")]
         leaf_by_n = {e[1]: e for e in o.state.events if e[0] == "leaf"}
         for k, v in log:
             if k[0] == "step":
@@ -181,6 +187,8 @@ def extract(prog, body_key, args, world=None):
                     evs.append(e[2:])  # (name, in_tag, ans[, closure, caps])
             elif k[0] == "empty?":
                 evs.append(("empty?", k[1], v))
+            elif k[0] == "probe":
+                evs.append(("probe:" + k[1], k[2], v))
             else:
                 evs.append(("str-eq", k[1], k[2], v))
         paths.append((tuple(evs), describe_result(prog, o.value)))
